@@ -49,6 +49,9 @@ def gen_chart_rows(rng, keys, n_measures, density=0.25, row_choices=ROWS):
                     grid[m][r][col] = rng.choice("24")
                     m2, r2 = flat[j]
                     grid[m2][r2][col] = "3"
+                    if j - i >= 2 and rng.random() < 0.25:
+                        m3, r3 = flat[rng.randint(i + 1, j - 1)]
+                        grid[m3][r3][col] = rng.choice("M1MLFK")  # e.g. a mine on a held column: an object like any other
                     i = j + 1
             else:
                 i += 1
